@@ -451,6 +451,104 @@ Proof.
         -- rewrite ES. ring.
 Qed.
 
+(* 2.8  THE ANALYSIS, relationally: any values bb, a4, ... related to their operands as the roundings of quadratic_solve are.
+   [relc eps t s]: t is s to within a normwise relative error eps. *)
+Definition relc (eps : R) (t s : C) : Prop := Cmod (t - s)%C <= eps * Cmod s.
+
+Lemma quad_core_rel (eps : R) (a b c bb a4 ac4 dh sh pr m' th q : C) :
+  0 <= eps <= / 100 ->
+  relc eps bb (b * b)%C -> relc eps a4 (a * RtoC (INR 4))%C -> relc eps ac4 (a4 * c)%C -> relc eps dh (bb - ac4)%C ->
+  (exists w : C, (w * w)%C = dh /\ relc eps sh w) -> relc eps pr (Cconj b * sh)%C ->
+  let sg := if (if Rle_dec 0 (fst pr) then true else false) then 1 else Ropp 1 in
+  relc eps m' (sh * RtoC sg)%C -> relc eps th (b + m')%C -> relc eps q (th * RtoC (- / 2))%C ->
+  let X5 := (1 + eps) * (1 + eps) * (1 + eps) * (1 + eps) * (1 + eps) in
+  let Xq := (1 + eps * (1 + eps)) * (1 + eps) * (1 + eps) in
+  let qx := ((b + sh * RtoC sg) * RtoC (- / 2))%C in
+  (sg = 1 \/ sg = Ropp 1) /\
+  Cmod (sh * sh - qdisc a b c)%C <= (X5 - 1) * (Cmod b * Cmod b + 4 * (Cmod a * Cmod c)) /\
+  (1 - eps) * (Cmod b * Cmod b + Cmod sh * Cmod sh) <= 4 * (Cmod qx * Cmod qx) /\
+  exists rho : C, q = (qx * rho)%C /\ near rho Xq /\
+    Cmod (qx * qx + b * qx + a * c)%C
+      <= (X5 - 1) / (1 - eps) * (Cmod qx * Cmod qx) + (X5 - 1) * (Cmod a * Cmod c).
+Proof.
+  intros [eps_nonneg He] Hbb Ha4 Hac4 Hdh (w & Ew & Hw) Hpr sg Hm Hth Hq X5 Xq qx. unfold relc in *.
+  (* the discriminant and its square root *)
+  destruct (rel_mult eps _ _ eps_nonneg Hbb) as (d1 & D1 & E1).
+  destruct (rel_mult eps _ _ eps_nonneg Ha4) as (d2 & D2 & E2).
+  destruct (rel_mult eps _ _ eps_nonneg Hac4) as (d3 & D3 & E3).
+  destruct (rel_mult eps _ _ eps_nonneg Hdh) as (d4 & D4 & E4).
+  destruct (rel_mult eps _ _ eps_nonneg Hw) as (d5 & D5 & E5).
+  pose proof (disc_err eps a b c bb a4 ac4 dh w sh d1 d2 d3 d4 d5 eps_nonneg D1 D2 D3 D4 D5 E1 E2 E3 E4 Ew E5) as HD.
+  cbv zeta in HD. fold X5 in HD.
+  (* the sign *)
+  destruct (sign_no_cancel eps b sh pr eps_nonneg Hpr) as [Hsg Hre]. fold sg in Hsg, Hre.
+  set (m := (sh * RtoC sg)%C) in *.
+  assert (Emm : (m * m)%C = (sh * sh)%C).
+  { unfold m. destruct Hsg as [-> | ->]; [ring | rewrite RtoC_opp; ring]. }
+  assert (Mm : Cmod m = Cmod sh).
+  { unfold m. rewrite Cmod_mult, Cmod_R. destruct Hsg as [-> | ->].
+    - rewrite Rabs_R1. ring.
+    - rewrite Rabs_Ropp, Rabs_R1. ring. }
+  rewrite <- Mm in Hre.
+  assert (Her : 0 <= eps < 1) by lra.
+  pose proof (no_cancel_bounds eps b m Her Hre) as NC.
+  set (t := (b + m)%C) in *.
+  assert (Mq : Cmod t = 2 * Cmod qx).
+  { unfold qx. rewrite Cmod_mult, Cmod_mhalf. field. }
+  pose proof (Cmod_ge_0 b) as Pb. pose proof (Cmod_ge_0 m) as Pm. pose proof (Cmod_ge_0 t) as Pt.
+  pose proof (Cmod_ge_0 qx) as Pq. pose proof (Cmod_ge_0 a) as Pa. pose proof (Cmod_ge_0 c) as Pc.
+  (* E *)
+  assert (HE : Cmod (qx * qx + b * qx + a * c)%C
+               <= (X5 - 1) / (1 - eps) * (Cmod qx * Cmod qx) + (X5 - 1) * (Cmod a * Cmod c)).
+  { pose proof (q_identity a b c m) as QI. cbv zeta in QI. fold t in QI. fold qx in QI.
+    assert (K : 4 * Cmod (qx * qx + b * qx + a * c)%C = Cmod (sh * sh - qdisc a b c)%C).
+    { rewrite <- Emm, <- QI, Cmod_mult, Cmod_4. reflexivity. }
+    assert (X5pos : 0 <= X5 - 1).
+    { pose proof (Cmod_ge_0 (sh * sh - qdisc a b c)%C).
+      destruct (Rle_dec 0 (X5 - 1)) as [L|N]; [exact L|]. exfalso.
+      unfold X5 in N. assert (1 <= (1 + eps) * (1 + eps)) by nra.
+      assert (1 <= (1 + eps) * (1 + eps) * (1 + eps)) by nra.
+      assert (1 <= (1 + eps) * (1 + eps) * (1 + eps) * (1 + eps)) by nra. nra. }
+    assert (Bq : Cmod b * Cmod b <= 4 * (Cmod qx * Cmod qx) / (1 - eps)).
+    { apply (Rmult_le_reg_r (1 - eps)); [lra|].
+      replace (4 * (Cmod qx * Cmod qx) / (1 - eps) * (1 - eps)) with (4 * (Cmod qx * Cmod qx)) by (field; lra).
+      rewrite Mq in NC. assert (0 <= Cmod m * Cmod m) by apply Rle_0_sqr. nra. }
+    assert (K2 : (X5 - 1) * (Cmod b * Cmod b) <= (X5 - 1) * (4 * (Cmod qx * Cmod qx) / (1 - eps)))
+      by (apply Rmult_le_compat_l; assumption).
+    replace ((X5 - 1) / (1 - eps) * (Cmod qx * Cmod qx)) with ((X5 - 1) * (4 * (Cmod qx * Cmod qx) / (1 - eps)) / 4)
+      by (field; lra).
+    lra. }
+  (* the rounded sum and the scaling by -1/2 *)
+  destruct (rel_mult eps _ _ eps_nonneg Hm) as (d6 & D6 & E6). fold m in E6.
+  destruct (rel_mult eps _ _ eps_nonneg Hth) as (d7 & D7 & E7).
+  destruct (rel_mult eps _ _ eps_nonneg Hq) as (d8 & D8 & E8).
+  assert (HA : exists ra : C, near ra (1 + eps * (1 + eps)) /\ (b + m * (C1 + d6))%C = (t * ra)%C).
+  { destruct (Ceq_dec t C0) as [Z|NZ].
+    - exists C1. split; [eapply near_mono; [apply near_1|nra]|].
+      rewrite Z, Cmod_0 in NC.
+      assert (Zb : Cmod b = 0) by nra. assert (Zm : Cmod m = 0) by nra.
+      apply Cmod_eq_0 in Zb, Zm. rewrite Z, Zb, Zm. ring.
+    - exists (C1 + m * d6 / t)%C. split; [|unfold t; field; exact NZ].
+      apply near_1pd. rewrite Cmod_div, Cmod_mult by exact NZ.
+      assert (Pt' : 0 < Cmod t) by (now apply Cmod_gt_0).
+      assert (Lm : Cmod m <= (1 + eps) * Cmod t).
+      { apply sq_le_lin; try lra.
+        assert (0 <= Cmod b * Cmod b) by apply Rle_0_sqr.
+        assert (G : 1 <= (1 + eps) * (1 + eps) * (1 - eps)) by nra.
+        assert (0 <= Cmod t * Cmod t) by apply Rle_0_sqr.
+        assert (G2 : Cmod t * Cmod t <= ((1 + eps) * (1 + eps) * (1 - eps)) * (Cmod t * Cmod t)) by nra.
+        nra. }
+      apply (Rmult_le_reg_r (Cmod t)); [exact Pt'|]. unfold Rdiv. rewrite Rmult_assoc, Rinv_l by lra.
+      pose proof (Cmod_ge_0 d6). nra. }
+  destruct HA as (ra & Nra & Era).
+  split; [exact Hsg|]. split; [exact HD|].
+  split; [rewrite <- Mm; rewrite Mq in NC; lra|].
+  exists (ra * (C1 + d7) * (C1 + d8))%C.
+  split; [|split; [|exact HE]].
+  - rewrite E8, E7, E6, Era. unfold qx. ring.
+  - unfold Xq. repeat apply near_mul; try assumption; apply near_1pd; assumption.
+Qed.
+
 (* ---------------------------------------------------------------- 3. the arithmetic, and the model in it *)
 Section RoundArith.
 Variable eps : R.
@@ -524,88 +622,14 @@ Lemma quad_core (a b c : C) : eps <= / 100 ->
     sh = fsqrt (q_disc a b c) /\ sg = q_sgn a b c.
 Proof.
   intros He X5 Xq.
-  (* the discriminant and its square root *)
-  destruct (rel_mult eps _ _ eps_nonneg (fmul_ok b b)) as (d1 & D1 & E1).
-  destruct (rel_mult eps _ _ eps_nonneg (fscale_ok a (INR 4))) as (d2 & D2 & E2).
-  destruct (rel_mult eps _ _ eps_nonneg (fmul_ok (fscale a (INR 4)) c)) as (d3 & D3 & E3).
-  destruct (rel_mult eps _ _ eps_nonneg (fsub_ok (fmul b b) (fmul (fscale a (INR 4)) c))) as (d4 & D4 & E4).
-  fold (q_disc a b c) in E4.
-  destruct (fsqrt_ok (q_disc a b c)) as (w & Ew & Hw).
-  destruct (rel_mult eps _ _ eps_nonneg Hw) as (d5 & D5 & E5).
-  set (sh := fsqrt (q_disc a b c)) in *.
-  pose proof (disc_err eps a b c _ _ _ _ w sh d1 d2 d3 d4 d5 eps_nonneg D1 D2 D3 D4 D5 E1 E2 E3 E4 Ew E5) as HD.
-  cbv zeta in HD. fold X5 in HD.
-  (* the sign *)
-  destruct (sign_no_cancel eps b sh (fmul (Cconj b) sh) eps_nonneg (fmul_ok (Cconj b) sh)) as [Hsg Hre].
-  fold sh in Hsg, Hre. change (if (if Rle_dec 0 (fst (fmul (Cconj b) sh)) then true else false) then 1 else Ropp 1)
-    with (q_sgn a b c) in Hsg, Hre.
-  set (sg := q_sgn a b c) in *.
-  set (m := (sh * RtoC sg)%C) in *.
-  assert (Emm : (m * m)%C = (sh * sh)%C).
-  { unfold m. destruct Hsg as [-> | ->]; [ring | rewrite RtoC_opp; ring]. }
-  assert (Mm : Cmod m = Cmod sh).
-  { unfold m. rewrite Cmod_mult, Cmod_R. destruct Hsg as [-> | ->].
-    - rewrite Rabs_R1. ring.
-    - rewrite Rabs_Ropp, Rabs_R1. ring. }
-  rewrite <- Mm in Hre.
-  assert (Her : 0 <= eps < 1) by lra.
-  pose proof (no_cancel_bounds eps b m Her Hre) as NC.
-  set (t := (b + m)%C) in *.
-  set (qx := (t * RtoC (- / 2))%C).
-  assert (Mq : Cmod t = 2 * Cmod qx).
-  { unfold qx. rewrite Cmod_mult, Cmod_mhalf. field. }
-  pose proof (Cmod_ge_0 b) as Pb. pose proof (Cmod_ge_0 m) as Pm. pose proof (Cmod_ge_0 t) as Pt.
-  pose proof (Cmod_ge_0 qx) as Pq. pose proof (Cmod_ge_0 a) as Pa. pose proof (Cmod_ge_0 c) as Pc.
-  (* E *)
-  assert (HE : Cmod (qx * qx + b * qx + a * c)%C
-               <= (X5 - 1) / (1 - eps) * (Cmod qx * Cmod qx) + (X5 - 1) * (Cmod a * Cmod c)).
-  { pose proof (q_identity a b c m) as QI. cbv zeta in QI. fold t in QI. fold qx in QI.
-    assert (K : 4 * Cmod (qx * qx + b * qx + a * c)%C = Cmod (sh * sh - qdisc a b c)%C).
-    { rewrite <- Emm, <- QI, Cmod_mult, Cmod_4. reflexivity. }
-    assert (X5pos : 0 <= X5 - 1).
-    { pose proof (Cmod_ge_0 (sh * sh - qdisc a b c)%C).
-      destruct (Rle_dec 0 (X5 - 1)) as [L|N]; [exact L|]. exfalso.
-      unfold X5 in N. assert (1 <= (1 + eps) * (1 + eps)) by nra.
-      assert (1 <= (1 + eps) * (1 + eps) * (1 + eps)) by nra.
-      assert (1 <= (1 + eps) * (1 + eps) * (1 + eps) * (1 + eps)) by nra. nra. }
-    assert (Bq : Cmod b * Cmod b <= 4 * (Cmod qx * Cmod qx) / (1 - eps)).
-    { apply (Rmult_le_reg_r (1 - eps)); [lra|].
-      replace (4 * (Cmod qx * Cmod qx) / (1 - eps) * (1 - eps)) with (4 * (Cmod qx * Cmod qx)) by (field; lra).
-      rewrite Mq in NC. assert (0 <= Cmod m * Cmod m) by apply Rle_0_sqr. nra. }
-    assert (K2 : (X5 - 1) * (Cmod b * Cmod b) <= (X5 - 1) * (4 * (Cmod qx * Cmod qx) / (1 - eps)))
-      by (apply Rmult_le_compat_l; assumption).
-    replace ((X5 - 1) / (1 - eps) * (Cmod qx * Cmod qx)) with ((X5 - 1) * (4 * (Cmod qx * Cmod qx) / (1 - eps)) / 4)
-      by (field; lra).
-    lra. }
-  (* the rounded sum and the scaling by -1/2 *)
-  destruct (rel_mult eps _ _ eps_nonneg (fscale_ok sh sg)) as (d6 & D6 & E6). fold m in E6.
-  destruct (rel_mult eps _ _ eps_nonneg (fadd_ok b (fscale sh sg))) as (d7 & D7 & E7).
-  destruct (rel_mult eps _ _ eps_nonneg (fscale_ok (fadd b (fscale sh sg)) (- / 2))) as (d8 & D8 & E8).
-  assert (HA : exists ra : C, near ra (1 + eps * (1 + eps)) /\ (b + m * (C1 + d6))%C = (t * ra)%C).
-  { destruct (Ceq_dec t C0) as [Z|NZ].
-    - exists C1. split; [eapply near_mono; [apply near_1|nra]|].
-      rewrite Z, Cmod_0 in NC.
-      assert (Zb : Cmod b = 0) by nra. assert (Zm : Cmod m = 0) by nra.
-      apply Cmod_eq_0 in Zb, Zm. rewrite Z, Zb, Zm. ring.
-    - exists (C1 + m * d6 / t)%C. split; [|unfold t; field; exact NZ].
-      apply near_1pd. rewrite Cmod_div, Cmod_mult by exact NZ.
-      assert (Pt' : 0 < Cmod t) by (now apply Cmod_gt_0).
-      assert (Lm : Cmod m <= (1 + eps) * Cmod t).
-      { apply sq_le_lin; try lra.
-        assert (0 <= Cmod b * Cmod b) by apply Rle_0_sqr.
-        assert (G : 1 <= (1 + eps) * (1 + eps) * (1 - eps)) by nra.
-        assert (0 <= Cmod t * Cmod t) by apply Rle_0_sqr.
-        assert (G2 : Cmod t * Cmod t <= ((1 + eps) * (1 + eps) * (1 - eps)) * (Cmod t * Cmod t)) by nra.
-        nra. }
-      apply (Rmult_le_reg_r (Cmod t)); [exact Pt'|]. unfold Rdiv. rewrite Rmult_assoc, Rinv_l by lra.
-      pose proof (Cmod_ge_0 d6). nra. }
-  destruct HA as (ra & Nra & Era).
-  exists sh, sg, qx, (ra * (C1 + d7) * (C1 + d8))%C.
-  split; [exact Hsg|]. split; [reflexivity|]. split; [exact HD|].
-  split; [rewrite <- Mm; rewrite Mq in NC; lra|].
-  split; [|split; [|split; [exact HE|split; reflexivity]]].
-  - unfold q_q. fold sh. fold sg. rewrite E8, E7, E6, Era. unfold qx. ring.
-  - unfold Xq. repeat apply near_mul; try assumption; apply near_1pd; assumption.
+  destruct (quad_core_rel eps a b c (fmul b b) (fscale a (INR 4)) (fmul (fscale a (INR 4)) c) (q_disc a b c)
+              (fsqrt (q_disc a b c)) (fmul (Cconj b) (fsqrt (q_disc a b c)))
+              (fscale (fsqrt (q_disc a b c)) (q_sgn a b c)) (fadd b (fscale (fsqrt (q_disc a b c)) (q_sgn a b c))) (q_q a b c)
+              (conj eps_nonneg He) (fmul_ok b b) (fscale_ok a (INR 4)) (fmul_ok _ c) (fsub_ok _ _) (fsqrt_ok _)
+              (fmul_ok (Cconj b) _) (fscale_ok _ _) (fadd_ok b _) (fscale_ok _ (- / 2)))
+    as (Hsg & HD & NC & rho & Eq & Hr & HE).
+  exists (fsqrt (q_disc a b c)), (q_sgn a b c), ((b + fsqrt (q_disc a b c) * RtoC (q_sgn a b c)) * RtoC (- / 2))%C, rho.
+  repeat split; try assumption; reflexivity.
 Qed.
 
 
@@ -1088,4 +1112,81 @@ Lemma poly_solve_deg2_o_eq (eps : R) (O : RoundOps) (a b c : C) :
   Ok ([o_div O (o_q O a b c) a; if Ceq_dec (o_q O a b c) C0 then o_div O (o_q O a b c) a else o_div O c (o_q O a b c)], []).
 Proof.
   unfold RoundRAo. rewrite poly_solve_deg2_eq, quadratic_solve_round_eq. reflexivity.
+Qed.
+
+(* ---------------------------------------------------------------- 5. the LOCAL form: only the operations quadratic_solve performs *)
+(* the residual bound from the relations between the values alone *)
+Lemma quad_residual_rel (eps : R) (a b c bb a4 ac4 dh sh pr m' th q r0 : C) :
+  0 <= eps <= / 100 -> a <> C0 ->
+  relc eps bb (b * b)%C -> relc eps a4 (a * RtoC (INR 4))%C -> relc eps ac4 (a4 * c)%C -> relc eps dh (bb - ac4)%C ->
+  (exists w : C, (w * w)%C = dh /\ relc eps sh w) -> relc eps pr (Cconj b * sh)%C ->
+  let sg := if (if Rle_dec 0 (fst pr) then true else false) then 1 else Ropp 1 in
+  relc eps m' (sh * RtoC sg)%C -> relc eps th (b + m')%C -> relc eps q (th * RtoC (- / 2))%C ->
+  relc eps r0 (q / a)%C ->
+  Cmod (qval a b c r0) <= 16 * eps * qsize a b c r0 /\
+  (forall r1 : C, q <> C0 -> relc eps r1 (c / q)%C -> Cmod (qval a b c r1) <= 16 * eps * qsize a b c r1) /\
+  (q = C0 -> b = C0 /\ c = C0).
+Proof.
+  intros Heps Ha Hbb Ha4 Hac4 Hdh Hsq Hpr sg Hm Hth Hq Hr0.
+  destruct (quad_core_rel eps a b c bb a4 ac4 dh sh pr m' th q Heps Hbb Ha4 Hac4 Hdh Hsq Hpr Hm Hth Hq)
+    as (Hsg & HD & NC & rho & Eq & Hr & HE).
+  fold sg in Hsg, NC, Eq, HE.
+  set (qx := ((b + sh * RtoC sg) * RtoC (- / 2))%C) in *.
+  destruct Heps as [He0 He].
+  destruct (rel_mult eps _ _ He0 Hr0) as (d9 & D9 & E9).
+  split; [|split].
+  - rewrite E9, Eq. apply root0_bound; assumption.
+  - intros r1 Nq Hr1. destruct (rel_mult eps _ _ He0 Hr1) as (d10 & D10 & E10).
+    rewrite E10, Eq. apply root1_bound; try assumption.
+    intros Zq. apply Nq. rewrite Eq, Zq. ring.
+  - intros Zq. destruct (numeric_bounds eps (conj He0 He)) as (N1 & N2 & N3 & N4 & N5).
+    assert (Zx : qx = C0).
+    { destruct (Ceq_dec qx C0) as [Z|NZ]; [exact Z|]. exfalso.
+      assert (Hrho : rho <> C0) by (apply (near_nz _ _ Hr); lra).
+      apply (Cmult_neq_0 _ _ NZ Hrho). now rewrite <- Eq. }
+    rewrite Zx in HE, NC. rewrite Cmod_0 in HE, NC.
+    replace (C0 * C0 + b * C0 + a * c)%C with (a * c)%C in HE by ring. rewrite Cmod_mult in HE.
+    pose proof (Cmod_ge_0 b). pose proof (Cmod_ge_0 c). pose proof (Cmod_ge_0 sh).
+    assert (Pa : 0 < Cmod a) by (now apply Cmod_gt_0).
+    assert (Pac : 0 <= Cmod a * Cmod c) by (apply Rmult_le_pos; lra).
+    split; apply Cmod_eq_0.
+    + assert (0 <= Cmod sh * Cmod sh) by apply Rle_0_sqr. nra.
+    + assert (Cmod a * Cmod c <= 0) by nra. nra.
+Qed.
+
+(* "each of the (at most) twelve rounded operations quadratic_solve performs on (a, b, c) has normwise relative error eps":
+   the hypotheses of std_model AT THE ARGUMENTS THAT OCCUR, nothing else (no statement about other arguments, so an arithmetic
+   with a bounded exponent range qualifies on the inputs that stay in range) *)
+Definition quad_ops_ok (eps : R) (O : RoundOps) (a b c : C) : Prop :=
+  let bb := o_mul O b b in let a4 := o_scale O a (INR 4) in let ac4 := o_mul O a4 c in let dh := o_sub O bb ac4 in
+  let sh := o_sqrt O dh in let pr := o_mul O (Cconj b) sh in
+  let sg := if (if Rle_dec 0 (fst pr) then true else false) then 1 else Ropp 1 in
+  let m' := o_scale O sh sg in let th := o_add O b m' in let q := o_scale O th (- / 2) in
+  relc eps bb (b * b)%C /\ relc eps a4 (a * RtoC (INR 4))%C /\ relc eps ac4 (a4 * c)%C /\ relc eps dh (bb - ac4)%C /\
+  (exists w : C, (w * w)%C = dh /\ relc eps sh w) /\ relc eps pr (Cconj b * sh)%C /\
+  relc eps m' (sh * RtoC sg)%C /\ relc eps th (b + m')%C /\ relc eps q (th * RtoC (- / 2))%C /\
+  relc eps (o_div O q a) (q / a)%C /\ (q <> C0 -> relc eps (o_div O c q) (c / q)%C).
+
+Lemma std_model_ops_ok (eps : R) (O : RoundOps) (a b c : C) : a <> C0 -> std_model eps O -> quad_ops_ok eps O a b c.
+Proof.
+  intros Hnz (Ha & Hs & Hm & Hd & Hsc & Hsq). unfold quad_ops_ok, relc. cbv zeta.
+  repeat split; try (apply Ha || apply Hs || apply Hm || apply Hsc || apply Hsq).
+  - apply Hd. exact Hnz.
+  - intros Nq. apply Hd. exact Nq.
+Qed.
+
+Theorem quadratic_residual_local_lemma (eps : R) (O : RoundOps) (a b c : C) :
+  0 <= eps <= / 100 -> a <> C0 -> quad_ops_ok eps O a b c ->
+  exists r0 r1 : C, poly_solve (RoundRAo eps O) [c; b; a] false = Ok ([r0; r1], []) /\
+    forall x : C, x = r0 \/ x = r1 ->
+      Cmod (a * x * x + b * x + c)%C <= 16 * eps * (Cmod a * Cmod x * Cmod x + Cmod b * Cmod x + Cmod c).
+Proof.
+  intros Heps Hnz H. unfold quad_ops_ok in H. cbv zeta in H.
+  destruct H as (H1 & H2 & H3 & H4 & H5 & H6 & H7 & H8 & H9 & H10 & H11).
+  destruct (quad_residual_rel eps a b c _ _ _ _ _ _ _ _ _ _ Heps Hnz H1 H2 H3 H4 H5 H6 H7 H8 H9 H10) as (B0 & B1 & _).
+  rewrite poly_solve_deg2_o_eq. do 2 eexists. split; [reflexivity|].
+  intros x [-> | ->]; [exact B0|].
+  unfold o_q, q_q, q_sgn, q_disc.
+  destruct (Ceq_dec _ C0) as [Z|NZ]; [exact B0|].
+  apply B1; [exact NZ | exact (H11 NZ)].
 Qed.
